@@ -155,13 +155,18 @@ def _limit_attrs(K):
     return out
 
 
-def h_limits(ctx, cls):
+def h_limits(ctx, cls, history=0):
     K = touch_bases(ofxgen.class_by_name(cls))
     args, kwargs = ofxgen.base_instance(K)
     cands = _limit_attrs(K)
     a, kind = cands[ctx.choice("attr", list(range(len(cands))))]
     conv = K.spec[a]
     kw = dict(kwargs)
+    # an arbitrary preceding workload: `history` instances whose value for this child differs each time (a long statement)
+    for i in range(history):
+        hv = {"string": "v%d" % i, "integer": i % 10}.get(kind)
+        if hv is not None and (kind != "string" or len(hv) <= conv.length):
+            constructs(K, args, dict(kw, **{a: hv}))
     for m in ofxgen.all_mutexes(K, "optionalMutexes") + ofxgen.all_mutexes(K, "requiredMutexes"):
         if a in m:
             for other in m:
@@ -336,6 +341,8 @@ def instances(tier, seed):
             mk(f"required[{n}]", "required", dict(cls=n))
         if _limit_attrs(K):
             mk(f"limits[{n}]", "limits", dict(cls=n), max_paths=4000)
+            if n in ("STMTTRN", "SONRQ", "BANKACCTFROM", "INVBUY") or (full and ofxgen.is_core(K)):
+                mk(f"limits[{n},history=300]", "limits", dict(cls=n, history=300), max_paths=4000, wall_s=300 if not full else 900)
         if len(K.spec) >= 1:
             mk(f"sequence[{n}]", "sequence", dict(cls=n), max_paths=3000)
         if K.listaggregates and not issubclass(K, ofxgen.ElementList):
